@@ -42,6 +42,49 @@ theorem for_runs_body_per_value (fuel : Nat) (c : Ctx) (o : Tok) (i : Int) (body
           execKids fuel c rest buf) := by
   simp [execKids, hb, hk, hl]
 
+/-- **switch** — exactly one clause of the block runs: the one `selectClause` picks for the tag's value,
+then the siblings after the switch follow; the other clauses produce nothing. -/
+theorem switch_runs_selected_clause (fuel : Nat) (c : Ctx) (o : Tok) (i : Int) (body rest ks : List Node) (buf : Buf)
+    (v : GoStr) (hk : silentKind (trimSpace o.lit) = .sSwitch) (hb : hasSuffix (trimSpace o.lit) [123] = false)
+    (hv : c.env.str (trimSpace o.lit) = some v) (hs : selectClause v body = some ks) :
+    execKids (fuel+1) c (.silent o i body :: rest) buf =
+      (do let buf ← execKids fuel c ks buf; execKids fuel c rest buf) := by
+  simp [execKids, hb, hk, hv, hs]
+
+/-- … and when no clause lists the value and there is no `default:`, the switch produces nothing -/
+theorem switch_without_clause (fuel : Nat) (c : Ctx) (o : Tok) (i : Int) (body rest : List Node) (buf : Buf)
+    (v : GoStr) (hk : silentKind (trimSpace o.lit) = .sSwitch) (hb : hasSuffix (trimSpace o.lit) [123] = false)
+    (hv : c.env.str (trimSpace o.lit) = some v) (hs : selectClause v body = none) :
+    execKids (fuel+1) c (.silent o i body :: rest) buf = execKids fuel c rest buf := by
+  simp [execKids, hb, hk, hv, hs]
+
+/-- **the first matching `case` wins, `default:` only when none matches** -/
+theorem selectClause_first_case (v : GoStr) (pre post : List Node) (n : Node) (ks : List Node)
+    (hpre : ∀ m ∈ pre, clauseOf v m = none) (hn : clauseOf v n = some ks) :
+    selectClause v (pre ++ n :: post) = some ks := by
+  have : (pre ++ n :: post).findSome? (clauseOf v) = some ks := by
+    induction pre with
+    | nil => simp [List.findSome?, hn]
+    | cons a as ih =>
+      have ha := hpre a (by simp)
+      simp only [List.cons_append, List.findSome?, ha]
+      exact ih (fun m hm => hpre m (by simp [hm]))
+  simp [selectClause, this]
+
+theorem selectClause_default (v : GoStr) (body : List Node)
+    (hnone : ∀ m ∈ body, clauseOf v m = none) : selectClause v body = body.findSome? defaultOf := by
+  have : body.findSome? (clauseOf v) = none := by
+    induction body with
+    | nil => rfl
+    | cons a as ih =>
+      simp only [List.findSome?, hnone a (by simp)]
+      exact ih (fun m hm => hnone m (by simp [hm]))
+  simp [selectClause, this]
+
+/-- non-vacuity: `case 1, 2:` lists 2 and not 3; `switch n0` is a switch line -/
+example : caseVals [99, 97, 115, 101, 32, 49, 44, 32, 50, 58] = some [[49], [50]] ∧
+    silentKind [115, 119, 105, 116, 99, 104, 32, 110, 48] = .sSwitch := by decide
+
 /-- **Document order** — siblings are rendered left to right: a non-control node first, then the rest. -/
 theorem siblings_in_order (fuel : Nat) (c : Ctx) (t : Tok) (rest : List Node) (buf : Buf) :
     execKids (fuel+1) c (.script t :: rest) buf =
